@@ -3,6 +3,7 @@
 //
 //	header emit   <emit_vectors.ndjson>     the header a negotiating session writes
 //	header accept <accept_vectors.ndjson>   headers presented to a negotiating session
+//	header accept-seq <accept_seq.ndjson>   sequences of headers presented to ONE session across stream restarts
 //
 // Every vector carries the expectation computed by TLC from the specification; the
 // driver compares and prints the mismatches in its summary.
@@ -15,11 +16,13 @@ import (
 	"encoding/xml"
 	"errors"
 	"fmt"
+	"io"
 	"os"
 	"regexp"
 	"strings"
 	"time"
 
+	"mellium.im/xmlstream"
 	"mellium.im/xmpp"
 	"mellium.im/xmpp/jid"
 	"mellium.im/xmpp/stream"
@@ -473,29 +476,65 @@ var lookValue = map[string]string{"id": "x9", "version": "1.0", "from": "admin@e
 // realValue is the value of the real attribute where the header carries it. Valid addresses
 // are the ones the session expects (initiator: the peer is example.net and addresses
 // me@example.net), so that only the header checks decide.
-func realValue(h HdrIn, a string) string {
+func realValue(h HdrIn, a string) string { return valueK(h, a, 1) }
+
+// the languages of the first, second, third header of a session
+var langs = []string{"en", "fr", "es"}
+
+// valueK is the value of the real attribute in the k-th header of a session (k = 1, 2, ..):
+// every header has an id and a language of its own; "valid" addresses are the ones the
+// session expects, "other" ones are valid addresses of somebody else.
+func valueK(h HdrIn, a string, k int) string {
+	other := h.To == "other" && a == "to" || h.From == "other" && a == "from"
 	switch a {
 	case "id":
-		return "s1"
+		return fmt.Sprintf("s%d", k)
 	case "lang":
-		return "en"
+		return langs[(k-1)%len(langs)]
 	case "version":
 		return h.Version.String()
+	case "xmlns":
+		switch {
+		case h.Name == "open":
+			return nsFraming
+		case h.XMLNS == "client":
+			return "jabber:client"
+		case h.XMLNS == "server":
+			return "jabber:server"
+		case h.XMLNS == "other":
+			return "urn:vt:other"
+		}
+		return ""
 	case "to":
 		if h.Role == "recv" {
+			if other {
+				return "other.example"
+			}
 			return "example.net"
+		}
+		if other {
+			return "you@example.net"
 		}
 		return "me@example.net"
 	case "from":
 		if h.Role == "recv" {
+			if other {
+				return "you@example.net"
+			}
 			return "me@example.net"
+		}
+		if other {
+			return "other.example"
 		}
 		return "example.net"
 	}
 	return ""
 }
 
-func hdrBytes(h HdrIn) string {
+func hdrBytes(h HdrIn) string { return hdrBytesK(h, 1) }
+
+// hdrBytesK renders the k-th header of a session.
+func hdrBytesK(h HdrIn, k int) string {
 	var s string
 	switch h.Pre {
 	case "decl":
@@ -561,28 +600,28 @@ func hdrBytes(h HdrIn) string {
 	case "empty":
 		attr("id", "")
 	case "set":
-		attr("id", realValue(h, "id"))
+		attr("id", valueK(h, "id", k))
 	default:
 		attr("id", none)
 	}
 	switch h.To {
-	case "valid":
-		attr("to", realValue(h, "to"))
+	case "valid", "other":
+		attr("to", valueK(h, "to", k))
 	case "invalid":
 		attr("to", "@example.net")
 	default:
 		attr("to", none)
 	}
 	switch h.From {
-	case "valid":
-		attr("from", realValue(h, "from"))
+	case "valid", "other":
+		attr("from", valueK(h, "from", k))
 	case "invalid":
 		attr("from", "@example.net")
 	default:
 		attr("from", none)
 	}
 	if h.Lang == "set" {
-		attr("lang", realValue(h, "lang"))
+		attr("lang", valueK(h, "lang", k))
 	} else {
 		attr("lang", none)
 	}
@@ -692,6 +731,261 @@ func acceptOK(v HdrVec, verdict string) bool {
 	return false
 }
 
+// ---------------------------------------------------------------- part (b'), sequences of headers across restarts
+
+// SeqVec: the headers the peer sends, one per stream of ONE session; between two of them the
+// session negotiates a feature whose Negotiate returns the connection as the new
+// io.ReadWriter (a stream restart, as after STARTTLS or SASL).
+type SeqVec struct {
+	In struct {
+		Hs []HdrIn `json:"hs"`
+	} `json:"in"`
+	// expectation per header, given that the headers before it were accepted
+	Exp []string `json:"exp"`
+	// what a session that accepted the LAST header reports, per attribute: "real", "notlook",
+	// "own" (nothing of an earlier header, nothing of a look-alike)
+	Info map[string]string `json:"info"`
+}
+
+const (
+	nsRst = "urn:vt:rst"
+	nsFin = "urn:vt:fin"
+)
+
+const rstFeatures = "<stream:features xmlns:stream='" + nsStream + "'><rst xmlns='" + nsRst + "'/></stream:features>"
+
+// scriptedFeature is an instrumented stream feature: listed and parsed as an empty element,
+// negotiated by one element written to the connection; restart: required, and Negotiate
+// returns the connection (the stream restarts).
+func scriptedFeature(space, local string, restart bool, calls *int) xmpp.StreamFeature {
+	return xmpp.StreamFeature{
+		Name: xml.Name{Space: space, Local: local},
+		List: func(ctx context.Context, e xmlstream.TokenWriter, start xml.StartElement) (bool, error) {
+			if err := e.EncodeToken(start); err != nil {
+				return restart, err
+			}
+			return restart, e.EncodeToken(start.End())
+		},
+		Parse: func(ctx context.Context, d *xml.Decoder, start *xml.StartElement) (bool, interface{}, error) {
+			return restart, nil, d.Skip()
+		},
+		Negotiate: func(ctx context.Context, s *xmpp.Session, data interface{}) (xmpp.SessionState, io.ReadWriter, error) {
+			if s.State()&xmpp.Received != 0 {
+				// consume the selection element the session pushed back for us
+				rd := s.TokenReader()
+				depth := 0
+				for {
+					tok, err := rd.Token()
+					if err != nil {
+						rd.Close()
+						return 0, nil, err
+					}
+					switch tok.(type) {
+					case xml.StartElement:
+						depth++
+					case xml.EndElement:
+						depth--
+					}
+					if depth == 0 {
+						break
+					}
+				}
+				rd.Close()
+			}
+			if _, err := fmt.Fprintf(s.Conn(), "<proceed xmlns='%s'/>", space); err != nil {
+				return 0, nil, err
+			}
+			*calls++
+			if restart {
+				return 0, s.Conn(), nil
+			}
+			return 0, nil, nil
+		},
+	}
+}
+
+func countFeatures(wire string) int {
+	var sc vt.Scanner
+	n := 0
+	for _, t := range sc.Feed([]byte(wire)) {
+		if (t.Kind == "start" || t.Kind == "empty") && (t.Name == "stream:features" || t.Name == "features") {
+			n++
+		}
+	}
+	return n
+}
+
+func seqBytes(v SeqVec) []string {
+	var b []string
+	for j, h := range v.In.Hs {
+		b = append(b, hdrBytesK(h, j+1))
+	}
+	return b
+}
+
+// runAcceptSeq negotiates one session whose peer sends the headers of the vector, one per
+// stream. It returns the verdict on the LAST header ("accept", "reject", "streamerror:<cond>",
+// "panic"; "prefix" when an earlier header was not accepted, so that the last one was never
+// presented) and, for an accepted one, the differences between what the session reports
+// and what the specification says it reports.
+func runAcceptSeq(v SeqVec) (verdict string, detail string, infoDiffs []string) {
+	hs := v.In.Hs
+	n := len(hs)
+	if n == 0 {
+		return "prefix", "empty sequence", nil
+	}
+	role, framing := hs[0].Role, hs[0].Framing
+	last := hs[n-1]
+	hb := seqBytes(v)
+	var chunks []string
+	for j := range hs {
+		switch {
+		case role == "init" && j < n-1:
+			chunks = append(chunks, hb[j]+rstFeatures)
+		case role == "init":
+			chunks = append(chunks, hb[j]+emptyFeatures)
+		case j < n-1:
+			chunks = append(chunks, hb[j], "<rst xmlns='"+nsRst+"'/>")
+		default:
+			chunks = append(chunks, hb[j], "<fin xmlns='"+nsFin+"'/>")
+		}
+	}
+	c := vt.NewConn()
+	reads := 0
+	c.Starve = func() {
+		if reads < len(chunks) {
+			c.FeedString(chunks[reads])
+			reads++
+			return
+		}
+		c.CloseIn()
+	}
+	restarts, fins := 0, 0
+	rst := scriptedFeature(nsRst, "rst", true, &restarts)
+	fin := scriptedFeature(nsFin, "fin", false, &fins)
+	neg := negotiatorOf(framing, func(*xmpp.Session, *xmpp.StreamConfig) xmpp.StreamConfig {
+		if role == "init" || restarts < n-1 {
+			return xmpp.StreamConfig{Features: []xmpp.StreamFeature{rst}}
+		}
+		return xmpp.StreamConfig{Features: []xmpp.StreamFeature{fin}}
+	})
+	state := xmpp.Secure
+	if hs[0].XMLNS == "server" {
+		state |= xmpp.S2S
+	}
+	var err error
+	var p interface{}
+	var s *xmpp.Session
+	if role == "init" {
+		s, err, p = session(true, jid.MustParse("example.net"), jid.MustParse("me@example.net"), c, state, neg)
+	} else {
+		s, err, p = session(false, jid.JID{}, jid.JID{}, c, state, neg)
+	}
+	if p != nil {
+		return "panic", fmt.Sprint(p), nil
+	}
+	if restarts < n-1 {
+		return "prefix", fmt.Sprintf("header %d of %d was not accepted: %s", restarts+1, n, errText(err)), nil
+	}
+	if restarts > n-1 {
+		return "reject", fmt.Sprintf("the stream was restarted %d times, the script has %d restarts", restarts, n-1), nil
+	}
+	var se stream.Error
+	if err != nil && errors.As(err, &se) && last.Name == "error" {
+		return "streamerror:" + se.Err, errText(err), nil
+	}
+	wire := c.WireString()
+	verdict = "reject"
+	if role == "init" && err == nil || role == "recv" && countFeatures(wire) >= n {
+		verdict = "accept"
+	}
+	if verdict != "accept" || s == nil || v.Info == nil {
+		return verdict, errText(err), nil
+	}
+	in := s.In()
+	got := map[string]string{"id": in.ID, "version": in.Version.String(), "from": in.From.String(), "to": in.To.String(), "lang": in.Lang, "xmlns": in.XMLNS}
+	for _, a := range []string{"id", "version", "xmlns", "from", "to", "lang"} {
+		name := a
+		if a == "lang" {
+			name = "xml:lang"
+		}
+		switch v.Info[a] {
+		case "real":
+			want := valueK(last, a, n)
+			if a == "version" {
+				want = "1.0" // (an accepted header declares the integers 1 and 0, however they are spelled)
+			}
+			if got[a] != want {
+				infoDiffs = append(infoDiffs, fmt.Sprintf("after header %d In() %s = %q, that header says %q", n, a, got[a], valueK(last, a, n)))
+			}
+		case "own":
+			// nothing an earlier header said
+			for j := 0; j < n-1; j++ {
+				if l := last.Look[a]; l != "" && l != "none" && got[a] == lookValue[a] {
+					break // (reported below as the look-alike's value)
+				}
+				if old := valueK(hs[j], a, j+1); carries(hs[j], a) && got[a] == old {
+					infoDiffs = append(infoDiffs, fmt.Sprintf("after header %d, which has no %s, In() %s = %q: the value of header %d, sent before the restart", n, name, a, got[a], j+1))
+					break
+				}
+			}
+			fallthrough
+		case "notlook":
+			if last.Look[a] == "" || last.Look[a] == "none" {
+				continue
+			}
+			lv := lookValue[a]
+			if got[a] == lv {
+				infoDiffs = append(infoDiffs, fmt.Sprintf("after header %d In() %s = %q: the value of the look-alike %s, the header has no %s", n, a, got[a], lookText(a, last.Look[a]), name))
+			}
+			if a == "from" || a == "to" {
+				if s.RemoteAddr().String() == lv || s.LocalAddr().String() == lv {
+					infoDiffs = append(infoDiffs, fmt.Sprintf("RemoteAddr()/LocalAddr() = %q/%q: the value of the look-alike %s", s.RemoteAddr(), s.LocalAddr(), lookText(a, last.Look[a])))
+				}
+				if role == "recv" && strings.Contains(wire, "'"+lv+"'") {
+					infoDiffs = append(infoDiffs, fmt.Sprintf("an answering header carries the value of the look-alike %s", lookText(a, last.Look[a])))
+				}
+			}
+		}
+	}
+	return verdict, errText(err), infoDiffs
+}
+
+// carries: the header has the attribute with a value a session can report.
+func carries(h HdrIn, a string) bool {
+	switch a {
+	case "id":
+		return h.ID == "set"
+	case "version":
+		return h.Version.Present
+	case "lang":
+		return h.Lang == "set"
+	case "xmlns":
+		return h.Name == "open" || h.XMLNS != "absent"
+	case "to":
+		return h.To == "valid" || h.To == "other"
+	case "from":
+		return h.From == "valid" || h.From == "other"
+	}
+	return false
+}
+
+// seqOK: the verdict on the last header lies within the expectation.
+func seqOK(v SeqVec, verdict string) bool {
+	last := v.In.Hs[len(v.In.Hs)-1]
+	switch v.Exp[len(v.Exp)-1] {
+	case "reject":
+		return verdict == "reject"
+	case "streamerror":
+		return verdict == "streamerror:"+last.Cond
+	case "error":
+		return verdict == "reject" || verdict == "streamerror:"+last.Cond
+	case "any":
+		return verdict == "accept" || verdict == "reject"
+	}
+	return false
+}
+
 // ---------------------------------------------------------------- main
 
 func lines(path string, f func([]byte)) {
@@ -711,7 +1005,7 @@ func lines(path string, f func([]byte)) {
 
 func main() {
 	if len(os.Args) < 3 {
-		fmt.Fprintln(os.Stderr, "usage: header emit|emit-shared|accept <vectors.ndjson>")
+		fmt.Fprintln(os.Stderr, "usage: header emit|emit-shared|accept|accept-seq <vectors.ndjson>")
 		os.Exit(2)
 	}
 	go func() {
@@ -805,6 +1099,47 @@ func main() {
 		})
 		sum.Extra["verdicts"] = counts
 		sum.Extra["accepted_headers_whose_recovered_values_were_compared"] = infoChecked
+	case "accept-seq":
+		counts := map[string]int{}
+		byLen := map[string]int{}
+		infoChecked, prefix := 0, 0
+		lines(os.Args[2], func(b []byte) {
+			var v SeqVec
+			if err := json.Unmarshal(b, &v); err != nil {
+				panic(err)
+			}
+			if len(v.In.Hs) == 0 || len(v.Exp) != len(v.In.Hs) {
+				panic("malformed sequence vector")
+			}
+			verdict, detail, infoDiffs := runAcceptSeq(v)
+			sum.Evaluations++
+			hb := seqBytes(v)
+			distinct[strings.Join(hb, "|")+v.In.Hs[0].Role+v.In.Hs[0].Framing] = true
+			byLen[fmt.Sprintf("%d headers", len(hb))]++
+			counts[v.Exp[len(v.Exp)-1]+"->"+strings.SplitN(verdict, ":", 2)[0]]++
+			if verdict == "prefix" {
+				// (an earlier header of the sequence was refused: the property allows that; nothing to judge)
+				prefix++
+				if len(sum.Samples) < 3 {
+					sum.Samples = append(sum.Samples, vt.Ev{"vector": v, "headers": hb, "observed": verdict, "detail": detail})
+				}
+				return
+			}
+			if verdict == "accept" {
+				infoChecked++
+			}
+			if !seqOK(v, verdict) || len(infoDiffs) > 0 {
+				v2, _, i2 := runAcceptSeq(v)
+				sum.Mismatches = append(sum.Mismatches, vt.Ev{"vector": v, "headers": hb, "bytes": strings.Join(hb, " ...restart... "), "observed": verdict, "detail": detail,
+					"info": append([]string{}, infoDiffs...), "confirmed": v2 == verdict && len(i2) == len(infoDiffs)})
+			} else if len(sum.Samples) < 2 && verdict == "accept" && sum.Evaluations%211 == 0 {
+				sum.Samples = append(sum.Samples, vt.Ev{"vector": v, "headers": hb, "observed": verdict})
+			}
+		})
+		sum.Extra["verdicts"] = counts
+		sum.Extra["sequences_by_length"] = byLen
+		sum.Extra["last_header_never_presented_because_an_earlier_one_was_refused"] = prefix
+		sum.Extra["accepted_last_headers_whose_recovered_values_were_compared"] = infoChecked
 	default:
 		os.Exit(2)
 	}
